@@ -596,6 +596,16 @@ def drv_misuse(doc, args, inst):
         'getitem_int_range': lambda: r([2, 3])[5, 0],
         'getitem_float': lambda: r([2, 3])[1.5, 0],
         'getitem_bool': lambda: r([2, 3])[True, 0, 0],
+        'mul_multi_element': lambda: r([3, 2]) * tn.tensor([1.0, 2.0], dtype=tn.float64),
+        'div_multi_element': lambda: r([3, 2]) / tn.tensor([1.0, 2.0], dtype=tn.float64),
+        'apply_mask_extra_columns': lambda: r([3, 2]).apply_mask(tn.tensor([[0, 0, 5], [1, 1, 7]])),
+        'sum_duplicate_axes': lambda: r([3, 4, 5]).sum([0, 0]),
+        'sum_bool_axis': lambda: r([3, 4, 5]).sum(True),
+        'dot_axis_size1': lambda: tt.dot(r([3, 4, 5]), r([1]), [1]),
+        'reshape_negative': lambda: tt.reshape(r([3, 4]), [-3, -4]),
+        'randn_len_R': lambda: tt.randn([2, 3], [1, 2, 1, 5, 7]),
+        'randn_end_R': lambda: tt.randn([2, 3], [1, 2, 3]),
+        'meshgrid_not_1d': lambda: tt.meshgrid([tn.ones(3, 2), tn.ones(2)]),
         'getitem_str': lambda: r([2, 3])['a'],
         'getitem_two_ellipsis': lambda: r([2, 3, 4])[..., 0, ...],
         'getitem_int_on_order2': lambda: r([2, 3])[0],
